@@ -555,6 +555,13 @@ class SReal:
     def __copy__(self): return self
     def __reduce__(self): return (_unpickle, (_register(self),))
 
+    # numpy scalars answer these; mystic asks (`w.shape`, `x.ndim`) on reduction results
+    shape = ()
+    ndim = 0
+    size = 1
+
+    def tolist(self): return self
+
     # numpy asks objects for these in object-dtype loops
     def conjugate(self): return self
     @property
